@@ -23,6 +23,8 @@ pub fn run_main(f: fn(&[u64]) -> Vec<u64>) {
         let res = res.unwrap_or_else(|_| vec![666]);
         let strs: Vec<String> = res.iter().map(|x| x.to_string()).collect();
         writeln!(out, "{}", strs.join(" ")).unwrap();
+        // flush per script: if a later script aborts the process, the results so far survive
+        out.flush().unwrap();
     }
     out.flush().unwrap();
 }
